@@ -5,6 +5,7 @@ import (
 	"bytes"
 	"encoding/xml"
 	"fmt"
+	"image"
 	"io"
 	"sort"
 	"strconv"
@@ -141,6 +142,22 @@ func runOBJ(src *choice.Source, st *Stats) (fs []Finding) {
 		}
 	}
 
+	if len(tris) > 0 {
+		// the remaining zip exporters: archives must open and reference every face once
+		wq := simio.NewWriter(simio.WriteFaults{})
+		if err := model3d.WriteQuantizedMaterialOBJ(wq, tris, 2, cf); err != nil {
+			fs = append(fs, Finding{"obj_quantized_zip|write-error", err.Error()})
+		} else if f := checkOBJZip("obj_quantized_zip", wq.Buf, tris); f != nil {
+			fs = append(fs, *f)
+		}
+		wt := simio.NewWriter(simio.WriteFaults{})
+		if err := model3d.WriteTexturedMaterialOBJ(wt, o, m, image.NewRGBA(image.Rect(0, 0, 2, 2))); err != nil {
+			fs = append(fs, Finding{"obj_textured_zip|write-error", err.Error()})
+		} else if f := checkOBJZip("obj_textured_zip", wt.Buf, tris); f != nil {
+			fs = append(fs, *f)
+		}
+		st.Bytes += int64(len(wq.Buf) + len(wt.Buf))
+	}
 	// the zip written by WriteMaterialOBJ, re-opened and re-parsed
 	w := simio.NewWriter(simio.WriteFaults{})
 	if err := model3d.WriteMaterialOBJ(w, tris, cf); err != nil {
